@@ -77,6 +77,28 @@ def main(tier):
                 ck.ok("R-C12-1", key, sample={"region": r.site, "elements written": len(by)} if n % 29 == 1 else None)
     # ---------------- structural rules over the whole library
     whole = ir.load()
+    # R-C12-1 on the parallel loops that live in the driver (rhs build/discretisation, exact error, extrapolated residual) and
+    # in Vector's copies: the same one-writer rule
+    for label, r in eff_runs.run_driver_loops(whole):
+        key = "%s @%s" % (label, r.site)
+        ck.instance("R-C12-1", key)
+        by = {}
+        for (aid, name, idx, w, site, group, cur) in r.effects:
+            if w:
+                by.setdefault((aid, name, idx, group), set()).add(cur)
+        bad = None
+        for (aid, name, idx, group), units in by.items():
+            if len(units) > 1 or None in units:
+                bad = (name, idx, group, units)
+                break
+        if bad:
+            why = ("by every thread of the team (replicated code%s)" % (": the parallel construct at %s is nested in the region, so each thread of the outer team executes all of it" % r.nested_sites[0] if getattr(r, "nested_sites", None) else "")) if None in bad[3] else "by %d units of work" % len(bad[3])
+            ck.violation("R-C12-1", "%s:%s" % (label, bad[0].split("#")[0]), r.site, "%s: element %s of %s is written %s in barrier group %s: the result depends on the thread count and the schedule" % (label, bad[1], bad[0], why, bad[2]))
+        else:
+            ck.ok("R-C12-1", key)
+        if r.carried:
+            nm, at, lp = r.carried[0]
+            ck.fail("R-C12-4", "%s:%s" % (label, nm), at, "%s: the variable `%s` is read at %s in an iteration of the worksharing loop at %s after an earlier iteration wrote it" % (label, nm, at, lp))
     RED_OK = ("dot_product", "l1_norm", "l2_norm_squared", "infinity_norm")
     n_omp = 0
     red_fns = set()
